@@ -146,11 +146,11 @@ def main():
         cli(sys.argv)
 
     except ValueError as e:
-        error_msg("DIMACS ERROR: " + str(e))
+        error_msg("DIMACS ERROR: " + str(e), prefix='c ')
         sys.exit(-1)
 
     except CLIError as e:
-        error_msg(str(e))
+        error_msg(str(e), prefix='c ')
         sys.exit(-1)
 
     except InternalBug as e:
